@@ -67,6 +67,25 @@ def tup(x):
     return tuple(tup(y) for y in x) if isinstance(x, (list, tuple)) else x
 
 
+class _Contract:
+    def __init__(self, script):
+        self._script = script
+
+    def script(self):
+        return copy.deepcopy(self._script)
+
+
+class _Contracts(dict):
+    def __getitem__(self, k):
+        return _Contract(dict.__getitem__(self, k))
+
+
+class _Shell:
+    """a stand-in for ShellQuery offering what the context asks of it here: contracts[address].script()"""
+    def __init__(self, scripts):
+        self.contracts = _Contracts(scripts)
+
+
 def compare(ctx, fam, reg, script, status, cur, expansions, nrefs, order=None, e2e=False, sig='C33'):
     """Register the concretised constants, resolve the concretised script, compare with the model."""
     from pytezos.context.impl import ExecutionContext
@@ -127,6 +146,28 @@ def compare(ctx, fam, reg, script, status, cur, expansions, nrefs, order=None, e
         again = ec.resolve_global_constants(copy.deepcopy(want))      # an expression without references is left unchanged
         if again != want:
             bad('resolve', 'expanded-not-fixpoint', 'resolve of the reference-free expansion returned %s' % (again,))
+    if ok:
+        # the other ways a registry and an expression reach the same function: the registry handed to the constructor (as ContractInterface contexts
+        # are built), and the parameter / storage type of another contract fetched through the shell (get_parameter_expr / get_storage_expr with an address)
+        ec2 = ExecutionContext(global_constants={ref.expr_hash(b): copy.deepcopy(b) for b in bodies})
+        try:
+            o2 = ('ok', ec2.resolve_global_constants(copy.deepcopy(src)))
+        except Exception as e:   # noqa
+            o2 = ('raised', type(e).__name__, str(e)[:100])
+        if o2 != first:
+            bad('resolve', 'registry-given-to-constructor-differs', 'with the same registry passed as ExecutionContext(global_constants=..) resolve gave %s; registered one by one: %s' % (o2, first))
+        addr = 'KT1PWx2mnDueood7fEmfbBDKx1D9BAnnXitn'
+        remote = {'code': [{'prim': 'parameter', 'args': [copy.deepcopy(src)]}, {'prim': 'storage', 'args': [copy.deepcopy(src)]}, {'prim': 'code', 'args': [[]]}], 'storage': {'prim': 'Unit'}}
+        ec3 = ExecutionContext(shell=_Shell({addr: remote}), global_constants={ref.expr_hash(b): copy.deepcopy(b) for b in bodies})
+        for getter, sect in ((ec3.get_parameter_expr, 'parameter'), (ec3.get_storage_expr, 'storage')):
+            try:
+                g = getter(addr)
+                o3 = ('ok', g['args'][0]) if isinstance(g, dict) and g.get('prim') == sect else ('ok', g)
+            except Exception as e:   # noqa
+                o3 = ('raised', type(e).__name__, str(e)[:100])
+            if o3[:2] != first[:2]:
+                bad('remote-' + sect, 'differs-from-local-resolve', 'the %s type of another contract (fetched through the shell) came back as %s; resolving the same expression locally: %s' % (sect, o3, first))
+                break
     if ok and e2e and fam == 'script' and status == 'done':
         # the contract built from the script with references must be the contract built from the model's expansion
         # (both go through the same MichelsonProgram printer, so its normalisations cancel out)
